@@ -42,7 +42,7 @@ import vlib
 # (by-value recursion, non-ASCII names are rewritten) is filtered by `in_frag` itself
 FEATURES = {"bool", "int", "int_format", "number", "string", "null", "str_enum", "object", "closed_object",
             "map", "array", "nullable_type", "ref", "recursion", "rename", "str_len", "str_pattern", "int_bounds", "set", "fixed_array", "tuple",
-            "oneof_external", "oneof_internal", "oneof_adjacent", "oneof_untagged"}
+            "oneof_external", "oneof_internal", "oneof_adjacent", "oneof_untagged", "nullable_oneof"}
 
 CORPUS = os.path.join(vlib.ROOT, "corpus", "convert")
 
@@ -243,6 +243,39 @@ def oneof_docs():
     doc({"anyOf": [xs("a"), xt("V", {"type": "string"})]})
     docs.extend(tagged_docs())
     docs.extend(untagged_docs())
+    docs.extend(option_docs())
+    return docs
+
+
+def option_docs():
+    """unions with exactly one non-null arm: maybe_option makes an Option of that arm"""
+    docs = []
+    bdef = {"type": "object", "properties": {"z": {"type": "boolean"}}}
+    nul = {"type": "null"}
+
+    def doc(e, **more):
+        d = {"B": bdef, "E": e}
+        d.update(more)
+        docs.append({"definitions": d})
+    arms = ONE_PAYLOADS + [{"oneOf": [tb({"t": tg("A"), "c": {"type": "string"}}), tb({"t": tg("B")})]},
+                           {"oneOf": [{"type": "string"}, {"type": "integer"}]}]
+    for x in arms:
+        doc({"oneOf": [x, nul]})
+        doc({"oneOf": [nul, x]})
+        doc({"type": "object", "properties": {"o": {"oneOf": [x, nul]}, "r": {"oneOf": [nul, x]}}, "required": ["r"]})
+        doc({"type": "array", "items": {"oneOf": [x, nul]}})
+        doc({"oneOf": [xs("a"), xt("V", {"oneOf": [x, nul]})]})
+    doc({"oneOf": [{"$ref": "#/definitions/N"}, nul]}, N={"type": ["string", "null"]})
+    doc({"oneOf": [{"$ref": "#/definitions/N"}, nul]}, N={"oneOf": [{"type": "string"}, nul]})
+    # near misses
+    doc({"oneOf": [{"type": "string"}, {"type": "integer"}, nul]})          # two non-null arms: untagged with a unit variant
+    doc({"oneOf": [nul, nul, {"type": "string"}]})
+    doc({"oneOf": [{"type": "string"}, dict(nul, title="N")]})
+    doc({"oneOf": [{"type": "string"}, {"type": "null", "enum": [None]}]})
+    doc({"oneOf": [nul, nul]})
+    doc({"oneOf": [{"oneOf": [{"type": "string"}, nul]}, nul]})            # Option of an Option
+    doc({"anyOf": [{"type": "string"}, nul]})
+    doc({"anyOf": [{"$ref": "#/definitions/B"}, nul]})
     return docs
 
 
